@@ -723,6 +723,10 @@ class Randomizer(RandIF):
                 ConstraintOverrideRollbackVisitor.rollback(fm)
                 # Solver handles must not outlive the call, however it ends
                 _dispose_fields(fm, set(), None if ok else randsz_len_m)
+            for c in constraint_l:
+                # Inline constraints reach dynamic-constraint blocks, whose
+                # foreach expansions must not outlive the call either
+                ConstraintOverrideRollbackVisitor.rollback(c)
 
         visited = [] 
         for fm in field_model_l:
